@@ -738,6 +738,12 @@ def observe(ev):
         args = (r,) if op == "BigUnrank" else (r, ev["n"])
         st, got = util.call(entry(Perm, "ind2perm") if form == "alias" else Perm.unrank, *args)
         ev.update(r=numeral(r), raised=st != "ok", res=list(got) if st == "ok" else [])
+    elif op == "BigMeshRank":
+        ev["res"] = numeral(MeshPatt(Perm(ev["p"]), [tuple(c) for c in ev["R"]]).rank())
+    elif op == "BigMeshUnrank":
+        r = ev.pop("value")
+        st, got = util.call(MeshPatt.unrank, Perm(ev["p"]), r)
+        ev.update(r=numeral(r), raised=st != "ok", R=sorted(list(c) for c in got.shading) if st == "ok" else [])
     elif op == "Less":
         ev["lt"] = bool(Perm(ev["a"]) < Perm(ev["b"]))
     elif op == "Std":
@@ -995,6 +1001,16 @@ def big_rank_events(ctx, rnd, quick):
             forgiving(ctx, events, {"op": "BigUnrankN", "value": r, "n": n, "form": rnd.choice(["", "alias"])})
         for r in (shorter(n), shorter(n + 1) - 1, rnd.randrange(shorter(n), shorter(n + 1))):
             forgiving(ctx, events, {"op": "BigUnrank", "value": r})
+    # shadings of grids with 36 to 100 cells
+    for k in ((5, 6, 7, 7, 8, 9) if quick else (5, 6, 7, 8, 9) * 8):
+        p = list(util.rand_perm(rnd, k))
+        cells = [[x, y] for x in range(k + 1) for y in range(k + 1)]
+        bits = (k + 1) ** 2
+        for R in ([c for c in cells if rnd.random() < 0.4], cells, cells[-1:], cells[-2:-1] + cells[:1], [c for c in cells if c[0] == k]):
+            forgiving(ctx, events, {"op": "BigMeshRank", "p": p, "R": R})
+        for r in (2 ** bits - 1, 2 ** (bits - 1), 2 ** (bits - 1) + 1, rnd.randrange(2 ** bits), 2 ** 53 + 1, 2 ** 32, 2 ** 31 - 1):
+            if r < 2 ** bits:
+                forgiving(ctx, events, {"op": "BigMeshUnrank", "p": p, "value": r})
     return events
 
 
